@@ -537,9 +537,8 @@ impl<T: Eq + Hash> FrequentItemsSketch<T> {
                 .filter(|s| *s <= stream_weight)
                 .ok_or_else(|| Error::deserial("counters exceed the stream weight"))?;
         }
-        if offset_val > stream_weight
-            || values.iter().any(|v| v.checked_add(offset_val).is_none())
-        {
+        // (the counters of items listed twice are added up: the bound is on the sum)
+        if offset_val > stream_weight || sum.checked_add(offset_val).is_none() {
             return Err(Error::deserial("offset out of range"));
         }
 
